@@ -1129,7 +1129,10 @@ impl<'a> Ev<'a> {
                     if let Some(t) = ext_field_ty(sn, name) { return Val::Sym { ty: t, path: np }; }
                     if let Some(ft) = self.ix.field_ty(sn, name) {
                         let t = Ty::from_syn(&ft);
-                        if t.name() == Some("bool") { return Val::Atom(F::A(np)); }
+                        if t.name() == Some("bool") {
+                            if self.assume_true_suffix.iter().any(|sfx| np.ends_with(sfx.as_str())) { return Val::Bool(true); }
+                            return Val::Atom(F::A(np));
+                        }
                         return Val::Sym { ty: t, path: np };
                     }
                 }
@@ -1411,7 +1414,7 @@ impl<'a> Ev<'a> {
                     for (n, v) in sc { if let Val::List(l) = v { lens.push((si, n.clone(), l.len())); } }
                 }
                 // snapshot of everything a body could carry over to the next iteration
-                let snap_env: Vec<Vec<(String, String)>> = s2.env.iter().map(|sc| sc.iter().filter(|(_, v)| !matches!(v, Val::List(_))).map(|(n, v)| (n.clone(), v.short())).collect()).collect();
+                let snap_env: Vec<Vec<(String, String)>> = s2.env.iter().map(|sc| sc.iter().filter(|(_, v)| !matches!(v, Val::List(_))).map(|(n, v)| (n.clone(), self.deref(&s2, v).short())).collect()).collect();
                 let snap_cells: Vec<String> = s2.cells.iter().map(|c| c.short()).collect();
                 s2.env.push(HashMap::new());
                 self.bind_pat_irrefutable(&mut s2, &f.pat, elem);
@@ -1428,18 +1431,27 @@ impl<'a> Ev<'a> {
                         }
                     }
                     // loop-carried state makes the one-iteration summary unsound: fail closed
+                    // a carried value that is a formula over bound(...) continuation atoms only is state of the
+                    // bounds resolution: it matters to the bounds properties, the others may ignore it
+                    let bounds_only = |v: &Val| -> bool {
+                        fn atoms(f: &F, out: &mut Vec<String>) { match f { F::A(a) => out.push(a.clone()), F::Not(x) => atoms(x, out), F::And(v) | F::Or(v) => { for x in v { atoms(x, out); } } _ => {} } }
+                        match v { Val::Bool(_) => false, Val::Atom(f) => { let mut a = Vec::new(); atoms(f, &mut a); !a.is_empty() && a.iter().all(|x| x.ends_with(".default") || x.starts_with("contains_in_type")) } _ => false }
+                    };
                     for (si, sc) in snap_env.iter().enumerate() {
                         for (n, before) in sc {
                             if let Some(after) = s3.env.get(si).and_then(|m| m.get(n)) {
-                                if !matches!(after, Val::List(_)) && after.short() != *before {
-                                    self.unsup(&format!("loop-carried write to `{n}` in a loop over symbolic collection {path}"), f.expr.span());
+                                let d = self.deref(&s3, after);
+                                if !matches!(after, Val::List(_)) && d.short() != *before {
+                                    let kind = if bounds_only(&d) || (matches!(d, Val::Bool(false)) && before.contains(".default")) { "loop-carried bounds flag" } else { "loop-carried write to" };
+                                    self.unsup(&format!("{kind} `{n}` in a loop over symbolic collection {path}"), f.expr.span());
                                 }
                             }
                         }
                     }
                     for (i, before) in snap_cells.iter().enumerate() {
                         if s3.cells[i].short() != *before {
-                            self.unsup(&format!("loop-carried write to a `&mut` flag in a loop over symbolic collection {path}"), f.expr.span());
+                            let kind = if bounds_only(&s3.cells[i]) { "loop-carried bounds flag" } else { "loop-carried write to" };
+                            self.unsup(&format!("{kind} a `&mut` flag in a loop over symbolic collection {path}"), f.expr.span());
                         }
                     }
                     s3.events.push(Event::Note(format!("loop-end {path}")));
@@ -1797,6 +1809,40 @@ impl<'a> Ev<'a> {
                     Val::Enum { args, .. } if !args.is_empty() => args[0].clone(),
                     Val::Sym { ty, path } => Val::Sym { ty: ty.arg0(), path: format!("{path}.?") },
                     _ => Val::opaque("unwrap", vec![rv.clone()]),
+                }
+            }
+            ("first", Val::Array(vs)) | ("first", Val::List(vs)) if !vs.iter().any(|x| matches!(x, Val::Rep { .. })) => match vs.first() { Some(x) => Val::some(x.clone()), None => Val::none() },
+            ("last", Val::Array(vs)) | ("last", Val::List(vs)) if !vs.iter().any(|x| matches!(x, Val::Rep { .. })) => match vs.last() { Some(x) => Val::some(x.clone()), None => Val::none() },
+            ("get", Val::Array(vs)) if matches!(args.first(), Some(Val::Int(_))) => { let Some(Val::Int(i)) = args.first() else { unreachable!() }; match vs.get(*i as usize) { Some(x) => Val::some(x.clone()), None => Val::none() } }
+            ("unwrap_or_else" | "unwrap_or" | "unwrap_or_default" | "or_else" | "or", Val::Enum { ty, var, args: eargs }) if ty == "Option" => {
+                if var == "Some" {
+                    if name.starts_with("unwrap") { eargs.first().cloned().unwrap_or(Val::Unit) } else { rv.clone() }
+                } else {
+                    match (name, args.first()) {
+                        ("unwrap_or_else" | "or_else", Some(Val::Closure(cv))) => return self.call_closure(st, cv, vec![]),
+                        ("unwrap_or" | "or", Some(v)) => v.clone(),
+                        _ => Val::opaque(format!(".{name}"), vec![rv.clone()]),
+                    }
+                }
+            }
+            ("unwrap_or_else" | "unwrap_or" | "or_else" | "or", Val::Sym { ty, path }) if ty.name() == Some("Option") => {
+                let mut r = Vec::new();
+                for (s, b) in self.decide(st, &F::A(path.clone())) {
+                    let inner = Val::Sym { ty: ty.arg0(), path: format!("{path}.?") };
+                    if b { r.push((s, Flow::Val(if name.starts_with("unwrap") { inner } else { Val::some(inner) }))); continue; }
+                    match (name, args.first()) {
+                        ("unwrap_or_else" | "or_else", Some(Val::Closure(cv))) => r.extend(self.call_closure(s, cv, vec![])),
+                        ("unwrap_or" | "or", Some(v)) => r.push((s, Flow::Val(v.clone()))),
+                        _ => r.push((s, Flow::Val(Val::opaque(format!(".{name}"), vec![rv.clone()])))),
+                    }
+                }
+                return r;
+            }
+            ("and_then" | "map", Val::Enum { ty, var, args: eargs }) if ty == "Option" && matches!(args.first(), Some(Val::Closure(_))) => {
+                if var == "None" { Val::none() } else {
+                    let Some(Val::Closure(cv)) = args.first() else { unreachable!() };
+                    let outs = self.call_closure(st, cv, vec![eargs.first().cloned().unwrap_or(Val::Unit)]);
+                    return if name == "map" { then(outs, |s2, v| vec![(s2, Flow::Val(Val::some(v)))]) } else { outs };
                 }
             }
             ("and_then" | "map", Val::Sym { ty, path }) if ty.name() == Some("Option") => {
